@@ -21,6 +21,9 @@ pub struct RewardSpec {
     pub mint_kind: u8,
     #[serde(default)]
     pub fee: Option<(u16, u64)>,
+    /// second / third reward only: paid in the SAME mint as the first reward (each index still has its own vault)
+    #[serde(default)]
+    pub same_mint_as_first: bool,
 }
 
 #[derive(Clone, Debug, Serialize, Deserialize, Hash, PartialEq, Eq)]
@@ -144,9 +147,18 @@ pub enum Op {
     SetTransferFee { second: bool, bp: u16, max: u64 },
     /// fee-mint pools: let epochs pass (scheduled transfer fees come into force)
     AdvanceEpoch(u8),
+    /// collect_reward(_v2) naming ANOTHER account as the reward's vault: the vault of another reward index (`from` 0, 1: possibly of the
+    /// same mint), or the pool's token vault A / B (2, 3).  Must be refused.
+    CollectRewardFrom { pos: u16, index: u8, v2: bool, from: u8 },
+    /// initialize_(dynamic_)tick_array sent AGAIN for an array that already exists (`which` picks it): as a dynamic array with the
+    /// idempotent flag set or not, or as a fixed array.  Refused or accepted, the array's contents must survive (all monitors run after it).
+    ReinitArray { which: u16, dynamic: bool, idempotent: bool },
     /// adversarial account choice: the wrapped liquidity / fee-update op names ANOTHER initialized tick array of the same pool for the
     /// position's lower (which 0) / upper (1) bound, `offset` arrays away, or exchanges the two (2).  Must be refused or harmless.
     Skewed { which: u8, offset: i8, op: Box<Op> },
+    /// the wrapped swap is sent as swap_v2 with up to three MORE of the pool's own tick arrays as supplemental accounts (chosen by `seed`
+    /// among the existing arrays, duplicates of the three main arrays included): the outcome may not depend on them
+    Supplemented { n: u8, seed: u16, op: Box<Op> },
 }
 
 impl Op {
@@ -154,6 +166,7 @@ impl Op {
     pub fn effective(&self) -> &Op {
         match self {
             Op::Skewed { op, .. } => op.effective(),
+            Op::Supplemented { op, .. } => op.effective(),
             o => o,
         }
     }
@@ -321,6 +334,7 @@ impl Hist {
         // rewards
         for (i, r) in spec.rewards.iter().take(3).enumerate() {
             let rm = match r.mint_kind % 4 {
+                _ if i > 0 && r.same_mint_as_first && !w.pools[pool].rewards.is_empty() => w.pools[pool].rewards[0].mint.clone(),
                 0 => w.create_spl_mint(),
                 1 => w.create_t22_mint(None),
                 2 => w.create_t22_mint(r.fee),
@@ -564,6 +578,30 @@ impl Hist {
     /// Execute one op.  A rejected instruction leaves the world unchanged.
     /// On pools with a Token-2022 mint the v1 instruction variants cannot be used; the v2 variant is sent instead.
     pub fn exec(&mut self, op: &Op) -> OpResult {
+        if let Op::Supplemented { n, seed, op: inner } = op {
+            let forced = match (**inner).clone() {
+                Op::Swap { trader, a_to_b, exact_in, amount, limit, .. } => Op::Swap { trader, a_to_b, exact_in, amount, limit, v2: true },
+                Op::SwapBack { trader, exact_in, delta, .. } => Op::SwapBack { trader, exact_in, delta, v2: true },
+                Op::SwapExact { trader, a_to_b, target, delta, with_limit, .. } => Op::SwapExact { trader, a_to_b, target, delta, with_limit, v2: true },
+                o => return self.exec(&o),
+            };
+            let pk = self.w.pools[self.pool].key;
+            let mut extra = vec![];
+            for k in 0..(*n).min(3) as usize {
+                if self.array_starts.is_empty() {
+                    break;
+                }
+                let s = self.array_starts[pick(seed.wrapping_mul(k as u16 * 2 + 1).wrapping_add(k as u16 * 21845), self.array_starts.len())];
+                let key = tick_array_pda(&pk, s);
+                if !extra.contains(&key) {
+                    extra.push(key);
+                }
+            }
+            self.w.swap_supplemental = extra;
+            let r = self.exec(&forced);
+            self.w.swap_supplemental = vec![];
+            return r;
+        }
         if let Op::Skewed { which, offset, op: inner } = op {
             if !matches!(inner.effective(), Op::Increase { .. } | Op::Decrease { .. } | Op::UpdateFees { .. } | Op::Reposition { .. }) || *offset == 0 && *which < 2 {
                 return self.exec(inner);
@@ -734,6 +772,19 @@ impl Hist {
                 res.swap = Some(sp);
                 ix
             }
+            Op::ReinitArray { which, dynamic, idempotent } => {
+                if self.array_starts.is_empty() {
+                    return res;
+                }
+                let start = self.array_starts[pick(*which, self.array_starts.len())];
+                let mut ix = self.w.ix_init_tick_array(self.pool, start, *dynamic);
+                if *dynamic && *idempotent {
+                    // InitializeDynamicTickArray { start_tick_index: i32, idempotent: bool }: the flag is the last data byte
+                    let n = ix.data.len();
+                    ix.data[n - 1] = 1;
+                }
+                ix
+            }
             Op::UpdateFees { pos } => {
                 let Some(p) = pick_pos(*pos) else { return res };
                 res.pos = Some(p);
@@ -780,7 +831,7 @@ impl Hist {
                 }
                 return res;
             }
-            Op::Skewed { op, .. } => return self.exec_inner(op),
+            Op::Skewed { op, .. } | Op::Supplemented { op, .. } => return self.exec_inner(op),
             Op::AdvanceEpoch(n) => {
                 let pl = &self.w.pools[self.pool];
                 if pl.mint_a.transfer_fee.is_some() || pl.mint_b.transfer_fee.is_some() {
@@ -801,6 +852,35 @@ impl Hist {
                 let rmi = self.w.pools[self.pool].rewards[idx].mint.clone();
                 let dest = self.w.user_token_existing(self.w.positions[p].owner, &rmi.key);
                 self.w.ix_collect_reward(p, idx as u8, dest, *v2 || rmi.program != TOKEN)
+            }
+            Op::CollectRewardFrom { pos, index, v2, from } => {
+                let Some(p) = pick_pos(*pos) else { return res };
+                let pl = self.w.pools[self.pool].clone();
+                let nrew = pl.rewards.len();
+                if nrew == 0 {
+                    return res;
+                }
+                let idx = *index as usize % nrew;
+                let own = pl.rewards[idx].vault;
+                let other = match from % 4 {
+                    0 | 1 => pl.rewards[(idx + 1 + *from as usize % 2) % nrew].vault,
+                    2 => pl.vault_a,
+                    _ => pl.vault_b,
+                };
+                if other == own {
+                    return res;
+                }
+                res.pos = Some(p);
+                res.user = Some(self.w.positions[p].owner);
+                let rmi = pl.rewards[idx].mint.clone();
+                let dest = self.w.user_token_existing(self.w.positions[p].owner, &rmi.key);
+                let mut ix = self.w.ix_collect_reward(p, idx as u8, dest, *v2 || rmi.program != TOKEN);
+                for m in ix.accounts.iter_mut() {
+                    if m.pubkey == own {
+                        m.pubkey = other;
+                    }
+                }
+                ix
             }
             Op::SetEmissions { index, emissions_x64 } => {
                 let nrew = self.w.pools[self.pool].rewards.len();
@@ -909,7 +989,7 @@ pub fn spec_strategy(with_rewards: bool, wrap_bias: bool) -> BoxedStrategy<World
     let rewards = if with_rewards {
         prop::collection::vec(
             (prop_oneof![1 => Just(0u128), 6 => gen::bits_u128(90), 1 => gen::bits_u128(128)], prop_oneof![1 => Just(0u64), 4 => gen::bits_u64(62)], prop_oneof![5 => Just(0u8), 1 => Just(1u8), 2 => Just(2u8), 2 => Just(3u8)], tf_strategy())
-                .prop_map(|(e, f, mint_kind, fee)| RewardSpec { emissions_x64: e, vault_fund: f, mint_kind, fee: if mint_kind >= 2 { fee } else { None } }),
+                .prop_map(|(e, f, mint_kind, fee)| RewardSpec { emissions_x64: e, vault_fund: f, mint_kind, fee: if mint_kind >= 2 { fee } else { None }, same_mint_as_first: e % 5 == 0 }),
             1..=3,
         )
         .boxed()
@@ -1068,6 +1148,7 @@ pub fn op_strategy(with_rewards: bool) -> BoxedStrategy<Op> {
         26 => swap_op(),
         6 => swap_back_op(),
         4 => swap_exact_op(),
+        2 => (any::<u16>(), any::<bool>(), any::<bool>()).prop_map(|(which, dynamic, idempotent)| Op::ReinitArray { which, dynamic, idempotent }),
         5 => any::<u16>().prop_map(|pos| Op::UpdateFees { pos }),
         5 => (any::<u16>(), any::<bool>()).prop_map(|(pos, v2)| Op::CollectFees { pos, v2 }),
         3 => any::<bool>().prop_map(|v2| Op::CollectProtocolFees { v2 }),
@@ -1081,11 +1162,15 @@ pub fn op_strategy(with_rewards: bool) -> BoxedStrategy<Op> {
     // one liquidity / fee-update op in twelve names a wrong tick array of the same pool
     let base = (base, 0u8..12, 0u8..3, prop_oneof![Just(-1i8), Just(1i8), Just(2i8), Just(-2i8)])
         .prop_map(|(op, k, which, offset)| if k == 0 && matches!(op, Op::Increase { .. } | Op::Decrease { .. } | Op::UpdateFees { .. } | Op::Reposition { .. }) { Op::Skewed { which, offset, op: Box::new(op) } } else { op });
+    // one swap in eight travels as swap_v2 with supplemental tick arrays
+    let base = (base, 0u8..8, 1u8..=3, any::<u16>())
+        .prop_map(|(op, k, n, seed)| if k == 0 && matches!(op, Op::Swap { .. } | Op::SwapBack { .. } | Op::SwapExact { .. }) { Op::Supplemented { n, seed, op: Box::new(op) } } else { op });
     if with_rewards {
         prop_oneof![
             70 => base,
             14 => prop_oneof![6 => 0i32..100, 6 => 0i32..100_000, 3 => 0i32..10_000_000, 1 => -100i32..0].prop_map(Op::AdvanceClock),
             6 => (any::<u16>(), 0u8..3, any::<bool>()).prop_map(|(pos, index, v2)| Op::CollectReward { pos, index, v2 }),
+            2 => (any::<u16>(), 0u8..3, any::<bool>(), 0u8..4).prop_map(|(pos, index, v2, from)| Op::CollectRewardFrom { pos, index, v2, from }),
             4 => (0u8..3, prop_oneof![1 => Just(0u128), 5 => gen::bits_u128(90), 1 => gen::bits_u128(128)]).prop_map(|(index, emissions_x64)| Op::SetEmissions { index, emissions_x64 }),
             2 => (0u8..3, gen::bits_u64(62)).prop_map(|(index, amount)| Op::FundRewardVault { index, amount }),
             3 => (0u8..3, -2i8..=2).prop_map(|(index, delta)| Op::SetEmissionsNearVault { index, delta }),
